@@ -28,6 +28,15 @@ TAG_MAP.update(
      univ.Real.tagSet: RealPayloadDecoder()}
 )
 
+# character string and useful types are octet strings on the wire,
+# constructed encoding is as illegal for them as for OCTET STRING
+for tagSet, typeDecoder in list(TAG_MAP.items()):
+    if (isinstance(typeDecoder, decoder.OctetStringPayloadDecoder) and
+            typeDecoder.supportConstructedForm):
+        TAG_MAP[tagSet] = type(
+            typeDecoder.__class__.__name__, (typeDecoder.__class__,),
+            {'supportConstructedForm': False})()
+
 TYPE_MAP = decoder.TYPE_MAP.copy()
 
 # Put in non-ambiguous types for faster codec lookup
